@@ -3,6 +3,7 @@ from lib import cfg
 from rules import common
 from rules.panic_common import run_panic_rule
 
+CRATES = ("agdb",)
 EXPLANATION = (
     "Static PANIC rule over the open/read path: from DbImpl::new / with_data / DbAny::new_* / exec / transaction and every "
     "impl Query::process the workspace call-graph closure (trait calls resolved to all workspace impls) is computed and "
